@@ -310,13 +310,23 @@ def keysDistinct : List Param → Bool
   | p :: ps => ps.all (fun q => q.key != p.key) && keysDistinct ps
 
 /-- Spec, from the property text: a parameter that is ABSENT and has a default appears with that default, in the
-    serialisation its own decoder reads; nothing else changes. -/
+    serialisation its own decoder reads; nothing else changes.  An array without members has no serialisation: the
+    form and simple expansions (RFC 6570 §2.3, §3.2.1: "a variable defined as a list value is considered undefined if
+    the list contains zero members") write nothing for it — whatever `explode` says. -/
 def specEncode (p : Param) (d : PVal) : List Wire :=
   match p.loc, d with
   | .path, _ => []
+  | _, .list [] => []
   | _, .sc a => [.lit a]
   | .query, .list as => if p.explode then as.map .lit else [mkCsv as]
   | _, .list as => [mkCsv as]
+
+/-- F-C13-10: an empty array default is written as an EMPTY VALUE (`e=`, `X-E:`, `ck=`) where its serialisation is
+    nothing (the code joins the zero items by ","); with `explode` on a query parameter nothing is written, as it
+    should be.  (The written empty value then reads back as "present without a value": second half of F-C13-7.) -/
+def EmptyArrayWritten (skip : Bool) (p : Param) (st : Store) : Bool :=
+  !p.content && !skip && decode p (st.get p.key) == .nil false && p.dflt == some (.list []) &&
+  encodeDefault p (.list []) != []
 
 def specStep (skip : Bool) (p : Param) (st : Store) : Store :=
   if skip then st
